@@ -1,4 +1,367 @@
+/-
+  C04 — a non-forwarding interface never advertises itself as a default router.
+
+  Part 1 (single generation, ANY parsed interface `ifi`, any system state): the RA built with
+  forwarding disabled is the RA built with forwarding enabled except that its router lifetime
+  is 0; generation fails in one state iff it fails in the other; the
+  `InterfaceNotForwarding` misconfiguration is reported iff a positive configured lifetime had
+  to be zeroed; with forwarding enabled the configured lifetime is sent unchanged.
+  The model zeroes the lifetime only when it is positive (Go: `ra.RouterLifetime > 0 &&
+  !forwarding`), so "= 0" needs `0 ≤ ifi.defaultLifetime`; this holds for every accepted
+  configuration (`accepted_lifetime_nonneg`), and `nofwd_lifetime_nonpos` is the
+  hypothesis-free form.
+
+  Part 2 (source facts regenerated from /repo on every check run): every function that
+  generates an RA reads the live forwarding state and passes it to `RouterAdvertisement`.
+
+  Part 3 (histories): a state machine over `setForwarding b | gen path` in which every
+  generation reads the current forwarding value; `paths_track` by induction over the history.
+
+  Part 4: the model meets the oracle `Spec.C04.holds` (uses C01's `ra_eq_spec`).
+-/
 import Corerad.Spec.C04
+import Corerad.Props.C01
+import Corerad.Gen.Advertise
+import Corerad.Gen.Metrics
+
 namespace Corerad.Props.C04
-theorem placeholder : True := trivial
+
+open Corerad Corerad.Model
+
+/-! ### Part 1 — one generation -/
+
+/-- the RA before the forwarding adjustment -/
+def baseRA (ifi : Interface) (opts : List Opt) : RA :=
+  { hopLimit := ifi.hopLimit, managed := ifi.managed, other := ifi.otherConfig,
+    preference := ifi.preference, routerLifetime := ifi.defaultLifetime,
+    reachable := ifi.reachable, retransmit := ifi.retransmit, options := opts }
+
+/-- closed form of `routerAdvertisement` -/
+theorem ra_shape (ifi : Interface) (sys : SysState) (fw : Bool) :
+    routerAdvertisement ifi sys fw =
+      (applyAll sys ifi.plugins).map fun opts =>
+        if 0 < ifi.defaultLifetime ∧ fw = false then ({ baseRA ifi opts with routerLifetime := 0 }, true)
+        else (baseRA ifi opts, false) := by
+  unfold routerAdvertisement baseRA
+  cases applyAll sys ifi.plugins with
+  | none => rfl
+  | some opts =>
+    simp only [Option.map_some]
+    cases fw
+    · simp only [Bool.not_false, and_true, gt_iff_lt]
+      split <;> rfl
+    · simp
+
+/-- whether generation succeeds does not depend on the forwarding state -/
+theorem fail_indep (ifi : Interface) (sys : SysState) (fw fw' : Bool) :
+    routerAdvertisement ifi sys fw = none ↔ routerAdvertisement ifi sys fw' = none := by
+  rw [ra_shape, ra_shape]; simp
+
+theorem nofwd_none_iff (ifi : Interface) (sys : SysState) :
+    routerAdvertisement ifi sys false = none ↔ routerAdvertisement ifi sys true = none :=
+  fail_indep ifi sys false true
+
+/-- not forwarding: the router lifetime is never positive (no hypothesis on `ifi`) -/
+theorem nofwd_lifetime_nonpos (ifi : Interface) (sys : SysState) (ra : RA) (mis : Bool)
+    (h : routerAdvertisement ifi sys false = some (ra, mis)) : ra.routerLifetime ≤ 0 := by
+  rw [ra_shape] at h
+  cases ha : applyAll sys ifi.plugins with
+  | none => rw [ha] at h; cases h
+  | some opts =>
+    rw [ha] at h
+    simp only [Option.map_some, and_true, Option.some.injEq] at h
+    by_cases hp : 0 < ifi.defaultLifetime
+    · rw [if_pos hp] at h; cases h; exact Int.le_refl 0
+    · rw [if_neg hp] at h; cases h; simp only [baseRA]; omega
+
+/-- not forwarding: the router lifetime is 0 -/
+theorem nofwd_lifetime_zero (ifi : Interface) (sys : SysState) (h0 : 0 ≤ ifi.defaultLifetime)
+    (ra : RA) (mis : Bool) (h : routerAdvertisement ifi sys false = some (ra, mis)) :
+    ra.routerLifetime = 0 := by
+  rw [ra_shape] at h
+  cases ha : applyAll sys ifi.plugins with
+  | none => rw [ha] at h; cases h
+  | some opts =>
+    rw [ha] at h
+    simp only [Option.map_some, and_true, Option.some.injEq] at h
+    by_cases hp : 0 < ifi.defaultLifetime
+    · rw [if_pos hp] at h; cases h; rfl
+    · rw [if_neg hp] at h; cases h; simp only [baseRA]; omega
+
+/-- not forwarding: everything except the router lifetime is what a forwarding router sends -/
+theorem nofwd_rest_unchanged (ifi : Interface) (sys : SysState) (h0 : 0 ≤ ifi.defaultLifetime)
+    (raF raT : RA) (mF mT : Bool)
+    (hF : routerAdvertisement ifi sys false = some (raF, mF))
+    (hT : routerAdvertisement ifi sys true = some (raT, mT)) :
+    raF = { raT with routerLifetime := 0 } := by
+  rw [ra_shape] at hF hT
+  cases ha : applyAll sys ifi.plugins with
+  | none => rw [ha] at hF; cases hF
+  | some opts =>
+    rw [ha] at hF hT
+    simp only [Option.map_some, and_true, Option.some.injEq, Bool.true_eq_false, and_false, if_false] at hF hT
+    cases hT
+    by_cases hp : 0 < ifi.defaultLifetime
+    · rw [if_pos hp] at hF; cases hF; rfl
+    · rw [if_neg hp] at hF; cases hF
+      have : ifi.defaultLifetime = 0 := by omega
+      simp only [baseRA, this]
+
+/-- both directions at once, as an equation between the two builds -/
+theorem nofwd_eq_fwd_zeroed (ifi : Interface) (sys : SysState) (h0 : 0 ≤ ifi.defaultLifetime) :
+    (routerAdvertisement ifi sys false).map (·.1) =
+      (routerAdvertisement ifi sys true).map (fun r => { r.1 with routerLifetime := 0 }) := by
+  rw [ra_shape, ra_shape]
+  cases applyAll sys ifi.plugins with
+  | none => rfl
+  | some opts =>
+    simp only [Option.map_some, and_true, Bool.true_eq_false, and_false, if_false]
+    by_cases hp : 0 < ifi.defaultLifetime
+    · rw [if_pos hp]
+    · rw [if_neg hp]
+      have : ifi.defaultLifetime = 0 := by omega
+      simp only [baseRA, this]
+
+/-- the misconfiguration is reported iff a positive configured lifetime had to be zeroed -/
+theorem misconfig_iff (ifi : Interface) (sys : SysState) (fw : Bool) (ra : RA) (mis : Bool)
+    (h : routerAdvertisement ifi sys fw = some (ra, mis)) :
+    mis = true ↔ (fw = false ∧ 0 < ifi.defaultLifetime) := by
+  rw [ra_shape] at h
+  cases ha : applyAll sys ifi.plugins with
+  | none => rw [ha] at h; cases h
+  | some opts =>
+    rw [ha] at h
+    simp only [Option.map_some, Option.some.injEq] at h
+    by_cases hp : 0 < ifi.defaultLifetime ∧ fw = false
+    · rw [if_pos hp] at h; cases h; exact ⟨fun _ => ⟨hp.2, hp.1⟩, fun _ => rfl⟩
+    · rw [if_neg hp] at h; cases h
+      exact ⟨fun h => (by cases h), fun h => absurd ⟨h.2, h.1⟩ hp⟩
+
+/-- forwarding: the configured lifetime is sent and nothing is reported -/
+theorem fwd_exact (ifi : Interface) (sys : SysState) (fw : Bool) (hfw : fw = true) (ra : RA) (mis : Bool)
+    (h : routerAdvertisement ifi sys fw = some (ra, mis)) :
+    ra.routerLifetime = ifi.defaultLifetime ∧ mis = false := by
+  subst hfw
+  rw [ra_shape] at h
+  cases ha : applyAll sys ifi.plugins with
+  | none => rw [ha] at h; cases h
+  | some opts =>
+    rw [ha] at h
+    simp only [Option.map_some, Bool.true_eq_false, and_false, if_false, Option.some.injEq] at h
+    cases h; exact ⟨rfl, rfl⟩
+
+/-- forwarding: the whole RA is the configured one -/
+theorem fwd_whole (ifi : Interface) (sys : SysState) :
+    routerAdvertisement ifi sys true = (applyAll sys ifi.plugins).map fun opts => (baseRA ifi opts, false) := by
+  rw [ra_shape]; simp
+
+/-- the router lifetime of every generated RA, in one formula -/
+theorem lifetime_formula (ifi : Interface) (sys : SysState) (fw : Bool) (h0 : 0 ≤ ifi.defaultLifetime)
+    (ra : RA) (mis : Bool) (h : routerAdvertisement ifi sys fw = some (ra, mis)) :
+    ra.routerLifetime = if fw then ifi.defaultLifetime else 0 := by
+  cases fw with
+  | true => exact (fwd_exact ifi sys true rfl ra mis h).1
+  | false => exact nofwd_lifetime_zero ifi sys h0 ra mis h
+
+/-- every accepted advertising stanza resolves to a non-negative default lifetime (so the
+    hypothesis `0 ≤ ifi.defaultLifetime` above holds for every parsed configuration) -/
+theorem accepted_lifetime_nonneg (n : Nat) (i : RawInterface)
+    (hdoc : Spec.C02.docInterface i = true) : 0 ≤ (Spec.C02.expInterface n i).defaultLifetime :=
+  Props.C01.expInterface_lifetime_nonneg n i hdoc
+
+theorem parsed_lifetime_nonneg (n : Nat) (i : RawInterface) (hwf : Props.C02.wfIface i = true)
+    (ifi : Interface) (h : parseInterface n i = some ifi) : 0 ≤ ifi.defaultLifetime := by
+  rw [Props.C02.parseInterface_eq n i hwf] at h
+  cases hd : Spec.C02.docInterface i with
+  | false => rw [hd] at h; cases h
+  | true =>
+    rw [hd] at h
+    simp only [if_true, Option.some.injEq] at h
+    subst h
+    exact accepted_lifetime_nonneg n i hd
+
+/-! ### Part 2 — every RA-generating path reads the live forwarding state (source facts) -/
+
+theorem gen_buildRAReadsForwarding : Gen.Advertise.buildRAReadsForwarding = true := by decide
+theorem gen_sendCalls_buildRA : Gen.Advertise.sendCalls_buildRA = true := by decide
+theorem gen_handleCalls_buildRA : Gen.Advertise.handleCalls_buildRA = true := by decide
+theorem gen_sendWorkerCalls_send : Gen.Advertise.sendWorkerCalls_send = true := by decide
+theorem gen_shutdownCalls_send : Gen.Advertise.shutdownCalls_send = true := by decide
+theorem gen_scrapeReadsForwarding : Gen.Metrics.scrapeReadsForwarding = true := by decide
+theorem gen_apiReadsForwarding : Gen.Metrics.apiReadsForwarding = true := by decide
+
+/-- the only non-test callers of `RouterAdvertisement` are `buildRA`, the metrics scrape and the
+    HTTP API handler (breaks if a new call site appears) -/
+theorem gen_raCallSites :
+    Gen.Metrics.raCallSites =
+      ["internal/corerad/advertise.go:buildRA", "internal/corerad/metrics.go:constScrape",
+       "internal/crhttp/handler.go:interfaces"] := by decide
+
+/-- all of the above: the three call sites of `RouterAdvertisement` each pass the live
+    `state.IPv6Forwarding` result, and every advertiser path (`sendWorker`, `handle`,
+    `shutdown`) reaches `RouterAdvertisement` only through `send`/`buildRA` -/
+theorem every_path_reads_forwarding :
+    Gen.Metrics.raCallSites.length = 3 ∧
+    Gen.Advertise.buildRAReadsForwarding = true ∧ Gen.Metrics.scrapeReadsForwarding = true ∧
+    Gen.Metrics.apiReadsForwarding = true ∧
+    Gen.Advertise.sendCalls_buildRA = true ∧ Gen.Advertise.handleCalls_buildRA = true ∧
+    Gen.Advertise.sendWorkerCalls_send = true ∧ Gen.Advertise.shutdownCalls_send = true := by decide
+
+/-! ### Part 3 — histories -/
+
+/-- the code paths that generate an RA: the initial and periodic multicasts and the solicited
+    unicasts (`sendWorker → send → buildRA`), the final RA of `shutdown` (`send` with
+    `DefaultLifetime = 0`), the comparison RA of `handle` (`buildRA`), the metrics scrape and
+    the HTTP API -/
+inductive Path where
+  | initial | periodic | solicited | final | verify | scrape | api
+deriving DecidableEq, Repr
+
+/-- one event of a history: the operator (or anything else) changes the interface's forwarding
+    state, or some path generates an RA -/
+inductive Op where
+  | setForwarding (b : Bool)
+  | gen (p : Path)
+deriving DecidableEq, Repr
+
+/-- the configuration a path hands to `RouterAdvertisement`: `shutdown` copies the
+    configuration and sets `DefaultLifetime = 0`, every other path uses it unchanged -/
+def pathCfg (ifi : Interface) : Path → Interface
+  | .final => { ifi with defaultLifetime := 0 }
+  | _ => ifi
+
+/-- Run a history from forwarding state `fw`: every `gen` reads the CURRENT forwarding value
+    (Part 2) and calls `RouterAdvertisement`.  Output: one entry per generation, in order. -/
+def run (ifi : Interface) (sys : SysState) : Bool → List Op → List (Path × Option (RA × Bool))
+  | _, [] => []
+  | _, .setForwarding b :: ops => run ifi sys b ops
+  | fw, .gen p :: ops => (p, routerAdvertisement (pathCfg ifi p) sys fw) :: run ifi sys fw ops
+
+/-- the forwarding state after a history prefix: the most recent `setForwarding`, or the
+    initial value (defined independently of `run`, as a fold) -/
+def fwAfter (init : Bool) (pre : List Op) : Bool :=
+  pre.foldl (fun fw op => match op with | .setForwarding b => b | .gen _ => fw) init
+
+/-- number of generations in a history -/
+def gens : List Op → Nat
+  | [] => 0
+  | .setForwarding _ :: ops => gens ops
+  | .gen _ :: ops => gens ops + 1
+
+/-- what the configuration calls for on a path: 0 on the final RA, else the configured lifetime -/
+def pathLifetime (ifi : Interface) (p : Path) : Dur := if p = .final then 0 else ifi.defaultLifetime
+
+theorem pathCfg_lifetime (ifi : Interface) (p : Path) : (pathCfg ifi p).defaultLifetime = pathLifetime ifi p := by
+  cases p <;> rfl
+
+theorem run_length (ifi : Interface) (sys : SysState) (fw : Bool) (ops : List Op) :
+    (run ifi sys fw ops).length = gens ops := by
+  induction ops generalizing fw with
+  | nil => rfl
+  | cons op ops ih =>
+    cases op with
+    | setForwarding b => simp only [run, gens, ih]
+    | gen p => simp only [run, gens, List.length_cons, ih]
+
+/-- The k-th generation of any history was built from the forwarding value in force at that
+    moment: for every split `ops = pre ++ gen p :: post`, entry number `gens pre` of the output
+    is `RouterAdvertisement` of the path's configuration with `fwAfter init pre`. -/
+theorem run_tracks (ifi : Interface) (sys : SysState) (init : Bool) (pre post : List Op) (p : Path) :
+    (run ifi sys init (pre ++ Op.gen p :: post))[gens pre]? =
+      some (p, routerAdvertisement (pathCfg ifi p) sys (fwAfter init pre)) := by
+  induction pre generalizing init with
+  | nil => rfl
+  | cons op pre ih =>
+    cases op with
+    | setForwarding b => simp only [List.cons_append, run, gens, fwAfter, List.foldl_cons]; exact ih b
+    | gen q =>
+      simp only [List.cons_append, run, gens, fwAfter, List.foldl_cons, List.getElem?_cons_succ]
+      exact ih init
+
+/-- **History form.**  In every history, the router lifetime of the k-th generated RA is
+    `if forwarding-at-that-moment then (if path = final then 0 else cfgLifetime) else 0`, and
+    the misconfiguration is reported exactly when a positive lifetime was zeroed. -/
+theorem paths_track (ifi : Interface) (sys : SysState) (h0 : 0 ≤ ifi.defaultLifetime)
+    (init : Bool) (pre post : List Op) (p : Path) :
+    ∃ res, (run ifi sys init (pre ++ Op.gen p :: post))[gens pre]? = some (p, res) ∧
+      ∀ ra mis, res = some (ra, mis) →
+        ra.routerLifetime = (if fwAfter init pre then (if p = .final then 0 else ifi.defaultLifetime) else 0) ∧
+        (mis = true ↔ (fwAfter init pre = false ∧ p ≠ .final ∧ 0 < ifi.defaultLifetime)) := by
+  refine ⟨_, run_tracks ifi sys init pre post p, ?_⟩
+  intro ra mis h
+  have hl0 : 0 ≤ (pathCfg ifi p).defaultLifetime := by
+    rw [pathCfg_lifetime]; unfold pathLifetime; split <;> omega
+  refine ⟨?_, ?_⟩
+  · rw [lifetime_formula _ sys _ hl0 ra mis h, pathCfg_lifetime]; rfl
+  · rw [misconfig_iff _ sys _ ra mis h, pathCfg_lifetime]
+    unfold pathLifetime
+    by_cases hp : p = .final
+    · simp [hp]
+    · simp [hp]
+
+/-- consequence: while forwarding is off, NO path advertises a non-zero router lifetime —
+    whatever happened earlier in the history -/
+theorem never_default_router_while_not_forwarding (ifi : Interface) (sys : SysState)
+    (h0 : 0 ≤ ifi.defaultLifetime) (init : Bool) (pre post : List Op) (p : Path)
+    (hoff : fwAfter init pre = false) (ra : RA) (mis : Bool)
+    (h : (run ifi sys init (pre ++ Op.gen p :: post))[gens pre]? = some (p, some (ra, mis))) :
+    ra.routerLifetime = 0 := by
+  obtain ⟨res, hres, hall⟩ := paths_track ifi sys h0 init pre post p
+  rw [hres] at h
+  simp only [Option.some.injEq, Prod.mk.injEq, true_and] at h
+  have := (hall ra mis h).1
+  rw [hoff] at this
+  simpa using this
+
+/-- non-vacuity: forwarding switched off after the initial RA and back on before the last
+    periodic one; the final RA always carries 0 -/
+example :
+    let ifi : Interface := { defaultLifetime := 1800 * second, hopLimit := 64 }
+    (run ifi {} true [.gen .initial, .setForwarding false, .gen .periodic, .gen .solicited, .gen .scrape,
+        .setForwarding true, .gen .periodic, .gen .api, .gen .final]).map
+      (fun e => e.2.map (fun r => (r.1.routerLifetime, r.2))) =
+    [some (1800 * second, false), some (0, true), some (0, true), some (0, true),
+     some (1800 * second, false), some (1800 * second, false), some (0, false)] := by decide
+
+/-! ### Part 4 — the model meets the oracle -/
+
+/-- The oracle accepts the model's output for every documented advertising stanza, every
+    system state and both forwarding values. -/
+theorem holds_model (n : Nat) (i : RawInterface) (sys : SysState) (fw : Bool)
+    (hdoc : Spec.C02.docInterface i = true) (hadv : i.monitor = false) :
+    (match routerAdvertisement (Spec.C02.expInterface n i) sys fw with
+     | none => Spec.C04.holds i sys fw "err" none false
+     | some (ra, mis) => Spec.C04.holds i sys fw "ok" (some ra) mis).1 = true := by
+  have hspec := Props.C01.build_eq_spec n i sys fw hdoc hadv
+  have hspecT := Props.C01.build_eq_spec n i sys true hdoc hadv
+  have h0 := accepted_lifetime_nonneg n i hdoc
+  cases h : routerAdvertisement (Spec.C02.expInterface n i) sys fw with
+  | none => simp [Spec.C04.holds]
+  | some r =>
+    obtain ⟨ra, mis⟩ := r
+    cases hT : routerAdvertisement (Spec.C02.expInterface n i) sys true with
+    | none => exact absurd ((fail_indep _ sys true fw).mp hT) (by rw [h]; simp)
+    | some rT =>
+      obtain ⟨full, misT⟩ := rT
+      rw [hT] at hspecT
+      simp only [Option.map_some] at hspecT
+      have hfull := (fwd_exact _ sys true rfl full misT hT).1
+      simp only [Spec.C04.holds, bne_self_eq_false, Bool.false_eq_true, if_false, ← hspecT]
+      cases fw with
+      | true =>
+        rw [hT] at h
+        simp only [Option.some.injEq, Prod.mk.injEq] at h
+        obtain ⟨rfl, rfl⟩ := h
+        have := (fwd_exact _ sys true rfl full misT hT).2
+        subst this
+        simp
+      | false =>
+        have hz := nofwd_lifetime_zero _ sys h0 ra mis h
+        have hrest := nofwd_rest_unchanged _ sys h0 ra full mis misT h hT
+        have hmis := misconfig_iff _ sys false ra mis h
+        simp only [Bool.false_eq_true, if_false, hz, bne_self_eq_false, ← hrest, hfull]
+        have : mis = decide (0 < (Spec.C02.expInterface n i).defaultLifetime) := by
+          rw [Bool.eq_iff_iff, hmis]; simp
+        simp [this]
+
 end Corerad.Props.C04
